@@ -381,7 +381,7 @@ async def part_workload(flavor, case, J):
                 J.sigs.add(f"workload|{spec['proto']}|{spec['proxy']}|{type(exc).__name__}")
                 if not documented(exc):
                     J.v(f"undocumented:workload:{exc_name(exc)}", f"{rec['token']} ({rec['beh']}): {exc!r}", {"spec": spec, "token": rec["token"]})
-                elif isinstance(exc, httpcore.LocalProtocolError) and rec["beh"] != "bad-upload":
+                elif isinstance(exc, httpcore.LocalProtocolError) and rec["beh"] not in ("bad-upload", "bad-head"):
                     # LocalProtocolError says "the caller sent something illegal": the class must match the cause
                     cnt["oracle_class"] += 1
                     J.v(f"wrong-class:workload:{spec['proto']}:LocalProtocolError", f"{rec['token']} ({rec['beh']}), a legal request, "
